@@ -241,6 +241,8 @@ package encoding
 //@   requires typeField != nil && embeds != nil && dynType(typeField.Type) != 0 && embedsOK(*embeds)
 //@   ensures[embeds] embedsOK(*embeds)
 //@   ensures[arr] refOf(*embeds) == refOf(old(*embeds)) || fresh(*embeds)
+//@   ensures[which] ret == (typeField.Anonymous && typeField.Name == rtName(typeField.Type) && (rtKind(typeField.Type) == reflect.Struct || rtKind(typeField.Type) == reflect.Interface))
+//@   ensures[ordinary] !ret ==> *embeds == old(*embeds)
 //@   modifies *embeds, elems(*embeds)
 
 //@ func encoding.doPopulateStructFromCBOR
@@ -377,6 +379,6 @@ package encoding
 //@   ensures[err] ret1 != nil ==> ret0 == nil
 //@   modifies nothing
 
-//@ bounded[C15,C09] reflect-cbor : 26 values over 5 struct shapes (flat / one / two levels of embedding / embedded interface holding a struct or a pointer), every subset of 3 optional fields, synthetic structs of 0,1,23,24,25,255,256,257 fields; thorough tier: synthetic structs of every field count 0..300 and 65535, 65536, 65537 :: boundedReflectCBOR()
-//@ bounded[C15,C09,C12] reflect-json : the same 26 values over 5 struct shapes, JSON side :: boundedReflectJSON()
+//@ bounded[C15,C09] reflect-cbor : 28 values over 6 struct shapes (flat / one / two levels of embedding / embedded interface holding a struct or a pointer / embedded named scalar and slice types with their own tags), every subset of 3 optional fields, synthetic structs of 0,1,23,24,25,255,256,257 fields; thorough tier: synthetic structs of every field count 0..300 and 65535, 65536, 65537 :: boundedReflectCBOR()
+//@ bounded[C15,C09,C12] reflect-json : the same 28 values over 6 struct shapes, JSON side :: boundedReflectJSON()
 //@ bounded[C05] populate-no-panic : every truncation of 31 CBOR and 31 JSON seed documents, every value of each of the first 6 bytes of each CBOR seed; thorough tier: every value of every byte of each CBOR seed :: boundedPopulateNoPanic()
